@@ -295,6 +295,17 @@ def pipelines(ctx, res):
         for f in sorted(cdir.glob("*.json")):
             cases.append(json.loads(f.read_text())["case"])
             origin.append(f"corpus/{f.name}")
+    if not ctx.replay:
+        # directed grids (DESIGN I.5): alias(keep_col_refs=True) + subquery with hidden / overwritten columns read again above
+        # it, joins with suffixes, unions, slice chains - the shapes in which the compiler has to invent names
+        import scenarios
+        big = ctx.tier != "quick"
+        for k, (f, nq) in enumerate(((scenarios.family_a, 160), (scenarios.family_joins, 60), (scenarios.family_unions, 40),
+                                     (scenarios.family_slices, 30), (scenarios.family_grouping, 30),
+                                     (scenarios.family_names, 10 ** 6))):
+            for c in scenarios.pick(f(), 10 ** 6 if big else nq, ctx.seed + 5 + k):
+                cases.append(c)
+                origin.append("grid")
     g = gen.Gen(ctx.seed + 1900, {})
     for i in range(n):
         cases.append(g.case())
